@@ -27,6 +27,8 @@ one transport per request, and the position-preserving "required field missing" 
 -/
 import FV.Model.Processor
 import FV.Proofs.Processor
+import FV.Model.Server
+import FV.Proofs.Server
 import FV.Generated.Locks
 import FV.Proofs.Locks
 
@@ -422,6 +424,56 @@ example : (run (Sys.init 2 exReply) [.lock 0, .writeChunk 0, .writeChunk 1]).isN
   simp [run, step, Sys.init, upd, exReply]
 example : (run (Sys.init 2 exReply) [.lock 0, .writeChunk 0, .lock 1]).isNone = true := by
   simp [run, step, Sys.init, upd, exReply]
+
+/-! ### Between the socket and `Process`: framing and the accept loop -/
+
+/-- The frames the server's framed reader recovers do not depend on how the byte stream reaches
+it: for EVERY chunking (socket reads, 4096-byte refills of the bufio.Reader, one-byte dribble, a
+cut inside a size prefix) the reader fed chunk by chunk yields exactly the frames — and the
+unconsumed tail — of the whole stream. -/
+theorem c14_frames_chunking_independent (maxLen : Nat) (chunks : List Bytes) :
+    Chunked.feedAll maxLen (.pending []) chunks = Chunked.deframe maxLen chunks.flatten :=
+  Chunked.frames_chunking_independent maxLen chunks
+
+/-- … so k requests pipelined on a connection, each written as one frame, reach `Process` as
+exactly those k frames in order, however the stream is cut, with nothing left over. -/
+theorem c14_pipelined_frames_recovered (maxLen : Nat) (fs : List Bytes) (chunks : List Bytes)
+    (hl : ∀ f ∈ fs, f.length ≤ maxLen ∧ f.length < 4294967296)
+    (hc : chunks.flatten = Chunked.enframe fs) :
+    Chunked.feedAll maxLen (.pending []) chunks = (fs, .pending []) := by
+  rw [c14_frames_chunking_independent, hc]
+  have := Chunked.deframe_enframe maxLen fs [] hl
+  simpa [Chunked.deframe_nil] using this
+
+/-- Two chunkings of the same stream give the same frames. -/
+theorem c14_frames_same_for_all_chunkings (maxLen : Nat) (c₁ c₂ : List Bytes) (h : c₁.flatten = c₂.flatten) :
+    Chunked.feedAll maxLen (.pending []) c₁ = Chunked.feedAll maxLen (.pending []) c₂ := by
+  rw [c14_frames_chunking_independent, c14_frames_chunking_independent, h]
+
+/-- "No request of any kind affects requests arriving on other connections", through the accept
+loop: with one goroutine per accepted connection, after ANY schedule the state of connection i
+(requests still to read, what was answered, whether its loop is still running) is its own
+initial state stepped as often as it was scheduled — no other connection's requests enter. -/
+theorem c14_connections_independent (pm : ProcMap) (conns : List (List (Request × HOutcome))) (sched : List Nat) (i : Nat) :
+    (srvRun pm (conns.map ConnSt.init) sched)[i]? =
+      (conns[i]?).map fun rs => iter (connStep pm) (sched.count i) (ConnSt.init rs) := by
+  rw [srvRun_conn]; simp [List.getElem?_map, Option.map_map, Function.comp_def]
+
+/-- … and once connection i has been scheduled often enough, what it was answered is
+`processConn` of its own requests: the answer sequence it would have got as the only client. -/
+theorem c14_connection_served_alone (pm : ProcMap) (conns : List (List (Request × HOutcome))) (sched : List Nat)
+    (i : Nat) (rs : List (Request × HOutcome)) (hi : conns[i]? = some rs) (hn : rs.length ≤ sched.count i) :
+    ((srvRun pm (conns.map ConnSt.init) sched)[i]?).map (·.out) = some (processConn pm rs) := by
+  rw [c14_connections_independent, hi]
+  simp [ConnSt.init, iter_conn pm rs [] _ hn]
+
+-- non-vacuity: a stream of two frames cut inside the second size prefix
+example : Chunked.feedAll 100 (.pending []) [[0, 0, 0, 2, 7, 8, 0, 0], [0], [1, 9]] = ([[7, 8], [9]], .pending []) :=
+  c14_pipelined_frames_recovered 100 [[7, 8], [9]] _ (by simp) (by simp [Chunked.enframe, be32])
+-- two connections, the second scheduled first: each is answered as if alone
+example : ((srvRun exPm ([[(exReq [120] true, .other)], [(exReq [112] true, .success [7])]].map ConnSt.init) [1, 0, 1])[1]?).map (·.out) =
+    some (processConn exPm [(exReq [112] true, .success [7])]) :=
+  c14_connection_served_alone exPm _ [1, 0, 1] 1 _ rfl (by decide)
 
 /-- **Lock discipline behind the model's atomic steps** (processor write mutex, NATS server send mutex), decided by the kernel on facts
 REGENERATED from lib/go's source on every check (harness/locks → FV/Generated/Locks.lean): no function
